@@ -3,6 +3,8 @@
 Correspondence (model ≈ code):
   W  real `ReplayWindow` vs Lean `RW` on generated is_valid/strike_out sequences
      (state-aware generator: numbers around the current window, jumps beyond it);
+  M  like U, with protected responses of the peer (answers to a request of the context under test, with and
+     without their own partial IV, authentic and forged) interleaved: Lean `runMsgs`;
   U  real `CanUnprotect.unprotect` (harness context, transparent AEAD, shims for
      cbor2/cryptography/filelock) vs Lean `unprotect` on arrival sequences of
      authentic / forged / echoing requests, initialised and uninitialised windows.
@@ -17,7 +19,9 @@ RULE = ("restart: the real FilesystemSecurityContext over process lifetimes (kil
         "replays before and after), judged by the oracle (model side: C13's persistence model); "
         "W: op sequences (is_valid/strike_out) drawn relative to the live window edge "
         "(inside, below, just above, far above) for sizes 1..64; U: arrival sequences "
-        "(seq, authentic?, echo?) through the real unprotect. A case is non-trivial when at "
+        "(seq, authentic?, echo?) through the real unprotect; M: the same context in both roles - protected "
+        "responses (authentic / forged, with a partial IV of their own that is late / current / future, or none) "
+        "between the requests, boundary table enumerated in full. A case is non-trivial when at "
         "least one number is accepted and one refused; distinct by full op sequence.")
 TRUSTED = ["harness shims for cbor2/cryptography/filelock and the transparent AEAD (harness/oscore_util.py)"]
 ASSUMPTIONS = ["AEAD decryption of a forged message fails (modelled as the `authentic` flag)",
@@ -147,6 +151,171 @@ def run_unprotect(aiocoap, oscore, HarnessContext, size, win, echo_recovery, arr
     return "".join(out) + " |" + fin, log
 
 
+class Peer:
+    """the other side of the security context under test, for mixed traffic: it sends protected requests with
+    chosen sequence numbers and answers requests of the context under test with protected responses that carry
+    (or do not carry) a sequence number of their own"""
+
+    def __init__(self, aiocoap, oscore, client, server):
+        self.aiocoap, self.oscore, self.client, self.server = aiocoap, oscore, client, server
+        # a request of the context under test for the peer to answer (the peer's own replay window is irrelevant
+        # here; it gets a fresh, wide one so that the request is accepted)
+        from aiocoap import Message, GET
+        self.client.recipient_replay_window = oscore.ReplayWindow(64, lambda: None)
+        self.client.recipient_replay_window.initialize_empty()
+        req = Message(code=GET, uri="coap://example.org/y", observe=0)
+        prot, self.request_id_local = server.protect(req)
+        prot.mid, prot.mtype = 2, aiocoap.CON
+        inc = Message.decode(prot.encode())
+        _, self.request_id_peer = self.client.unprotect(inc)
+
+    def response(self, seq, forge):
+        from aiocoap import Message, CONTENT
+        msg = Message(code=CONTENT, payload=b"r")
+        rid = self.request_id_peer
+        if seq is None:
+            rid.can_reuse_nonce = True
+        else:
+            rid.can_reuse_nonce = False           # forces a partial IV of the peer's own
+            self.client.sender_sequence_number = seq
+        prot, _ = self.client.protect(msg, rid)
+        if forge:
+            prot.payload = prot.payload[:-1] + bytes([prot.payload[-1] ^ 0x01])
+        prot.mid, prot.mtype, prot.token = 3, self.aiocoap.NON, b""
+        return Message.decode(prot.encode())
+
+
+def run_mixed(aiocoap, oscore, HarnessContext, size, win, echo_recovery, msgs):
+    """msgs: ("q", seq, authentic, echo) requests and ("p", seq|None, authentic) responses, through the real
+    unprotect of ONE context used in both roles"""
+    client, server = make_ctx_pair(oscore, HarnessContext, size)
+    peer = Peer(aiocoap, oscore, client, server)
+    w = oscore.ReplayWindow(size, lambda: None)
+    if win is not None:
+        w.initialize_from_persisted({"index": win[0], "bitfield": win[1]})
+    server.recipient_replay_window = w
+    server.echo_recovery = None if echo_recovery is None else echo_recovery.to_bytes(8, "big")
+    out, log = [], []
+    for m in msgs:
+        before = w.persist() if w.is_initialized() else None
+        try:
+            if m[0] == "q":
+                _, seq, auth, echo = m
+                inc = protected_request(aiocoap, client, seq, None if echo is None else echo.to_bytes(8, "big"),
+                                        not auth)
+                server.unprotect(inc)
+            else:
+                _, seq, auth = m
+                server.unprotect(peer.response(seq, not auth), peer.request_id_local)
+            o = "A"
+        except oscore.ReplayErrorWithEcho:
+            o = "E"
+        except oscore.ReplayError:
+            o = "R"
+        except oscore.ProtectionInvalid:
+            o = "P"
+        after = w.persist() if w.is_initialized() else None
+        log.append((m, o, before, after))
+        out.append(o)
+    p = w.persist() if w.is_initialized() else None
+    fin = "u" if p is None else f"i:{p['index']}:{p['bitfield']}"
+    return "".join(out) + " |" + fin, log
+
+
+def oracle_mixed(size, win, echo_recovery, log):
+    """the property read over mixed traffic: responses never make a request acceptable twice, never touch an
+    initialised window; forged messages change nothing"""
+    accepted = []
+    initialised = win is not None
+    for (m, o, before, after) in log:
+        if m[0] == "q":
+            _, seq, auth, echo = m
+            if o == "A":
+                if seq in accepted:
+                    return f"sequence number {seq} accepted twice"
+                if not auth:
+                    return f"forged request {seq} accepted"
+                if not initialised and (echo_recovery is None or echo != echo_recovery):
+                    return f"request {seq} accepted on an uninitialised window without the issued echo"
+                if any(seq + size <= a for a in accepted):
+                    return f"number {seq} accepted although it fell out of the window"
+                accepted.append(seq)
+                initialised = True
+            elif not auth and before != after:
+                return f"forged request {seq} changed the replay window {before} -> {after}"
+        else:
+            _, seq, auth = m
+            if not auth and (o != "P" or before != after):
+                return f"forged response (sequence number {seq}) gave {o}, window {before} -> {after}"
+            if auth and o != "A":
+                return f"authentic response (sequence number {seq}) was refused ({o})"
+            if before is not None and before != after:
+                return f"a response (sequence number {seq}) changed the initialised replay window {before} -> {after}"
+            if before is None and after is not None:
+                if echo_recovery is None or seq is None:
+                    return f"a response (sequence number {seq}) initialised the window of a context without its own number / Echo recovery"
+                initialised = True
+    return ""
+
+
+def mixed_cases(env):
+    rng = env.rng
+    cases = []
+    # boundary table: requests n..n+k accepted, then a (late, current, future; authentic, forged; numbered or not)
+    # response, then replays of everything and one new request -- for initialised and uninitialised starts
+    for size in (1, 8, 32):
+        for start in ((0, 0), None):
+            for rseq in (None, 0, 3, 5, 6, 7, 8, 7 + size, 1000):
+                for auth in (True, False):
+                    first = [("q", 5, True, 7 if start is None else None), ("q", 6, True, None), ("q", 7, True, None)]
+                    msgs = first + [("p", rseq, auth)] + [("q", n, True, None) for n in (5, 6, 7, 8)]
+                    cases.append((size, start, 7, msgs))
+                    cases.append((size, start, 7, [("p", rseq, auth)] + msgs))
+    for _ in range(env.scale(250, 6000)):
+        size = rng.choice([1, 2, 8, 32, 32, 64])
+        r = rng.random()
+        win = (0, 0) if r < 0.45 else (None if r < 0.75 else (rng.randrange(100), rng.getrandbits(size)))
+        echo_recovery = rng.choice([None, 7, 7, 7])
+        msgs = []
+        idx = win[0] if win else 0
+        top = idx
+        reqs = []
+        for _ in range(rng.randrange(3, 16)):
+            if rng.random() < 0.3:
+                k = rng.random()
+                seq = None if k < 0.25 else (rng.choice(reqs)[1] if reqs and k < 0.6 else gen_number(rng, idx, size, top))
+                msgs.append(("p", seq, rng.random() < 0.8))
+                continue
+            if reqs and rng.random() < 0.3:
+                seq = rng.choice(reqs)[1]
+            else:
+                seq = gen_number(rng, idx, size, top)
+            auth = rng.random() < 0.8
+            e = rng.random()
+            echo = 7 if e < 0.25 else (8 if e < 0.32 else None)
+            m = ("q", seq, auth, echo)
+            msgs.append(m)
+            reqs.append(m)
+            if auth:
+                if seq >= idx + size:
+                    idx = seq - size + 1
+                top = max(top, seq)
+        cases.append((size, win, echo_recovery, msgs))
+    return cases
+
+
+def m_line(size, win, echo_recovery, msgs):
+    w = "u" if win is None else f"i:{win[0]}:{win[1]}"
+    e = "-" if echo_recovery is None else str(echo_recovery)
+    parts = []
+    for m in msgs:
+        if m[0] == "q":
+            parts.append(f"q:{m[1]}:{1 if m[2] else 0}:{'-' if m[3] is None else m[3]}")
+        else:
+            parts.append(f"p:{'-' if m[1] is None else m[1]}:{1 if m[2] else 0}")
+    return f"C12 M {size} {w} {e} " + " ".join(parts)
+
+
 def oracle_unprotect(size, win, echo_recovery, log):
     """Direct reading of the property over what the implementation did."""
     accepted = []
@@ -274,6 +443,26 @@ def run(env, rep):
         if v:
             rep.oracle_fail(case, v, key="unprotect:" + v.split(" ")[0] + ":" + v.split(" ")[-1])
     compare(env, rep, ucases, lines, impl, what="unprotect")
+
+    # --- M: one context in both roles: protected responses between the protected requests
+    mcases = [(c["m"][0], c["m"][1], c["m"][2], c["m"][3]) for _, c in load_corpus("C12") if "m" in c] + mixed_cases(env)
+    lines, impl = [], []
+    for (size, win, er, msgs) in mcases:
+        win = tuple(win) if win is not None else None
+        msgs = [tuple(m) for m in msgs]
+        lines.append(m_line(size, win, er, msgs))
+        r, log = run_mixed(aiocoap, oscore, HarnessContext, size, win, er, msgs)
+        impl.append(r)
+        outs = r.split(" |")[0]
+        case = {"kind": "M", "size": size, "win": win, "echo_recovery": er, "msgs": msgs}
+        rep.case(case, nontrivial=("A" in outs and len(set(outs)) > 1 and any(m[0] == "p" for m in msgs)),
+                 sample_every=1000)
+        for m, ch in zip(msgs, outs):
+            rep.count(("M:request=" if m[0] == "q" else "M:response=") + ch)
+        v = oracle_mixed(size, win, er, log)
+        if v:
+            rep.oracle_fail(case, v, key="mixed:" + v.split(" ")[0] + ":" + v.split(" ")[-1])
+    compare(env, rep, mcases, lines, impl, what="unprotect, mixed requests and responses")
     run_restarts(env, rep)
     if rep.hist.get("U:outcome=A", 0) == 0 or rep.hist.get("U:outcome=R", 0) == 0:
         rep.notes.append("generator produced no accepted or no refused arrival")
@@ -389,6 +578,10 @@ def replay(env, case):
                 return f"is_valid({n}) true after strike: {r}"
         return ""
     win = tuple(case["win"]) if case["win"] is not None else None
+    if case.get("kind") == "M":
+        r, log = run_mixed(aiocoap, oscore, HarnessContext, case["size"], win, case["echo_recovery"],
+                           [tuple(m) for m in case["msgs"]])
+        return oracle_mixed(case["size"], win, case["echo_recovery"], log)
     r, log = run_unprotect(aiocoap, oscore, HarnessContext, case["size"], win,
                            case["echo_recovery"], [tuple(a) for a in case["arrivals"]])
     return oracle_unprotect(case["size"], win, case["echo_recovery"], log)
